@@ -160,11 +160,13 @@ def run(chk):
             n0, p0, n1, p1, x = [g.v(i) for i in range(5)]
             c = cross(n0, n1)
             cond = norm(n0) * norm(n1) / norm(c)
-            if cond > 10 ** 4:
+            shallow = r.family.endswith('shallow')
+            if cond > 10 ** 4 and not shallow:
                 ok_cond = False
             else:
                 rr, r2 = res[0:3], res[3:6]
-                tol = 256 * EPS * cond * cond * (amax(p0) + amax(p1) + amax(x)) + Fraction(1, 10 ** 300)
+                # family shallow: dyadic coordinates, the float evaluation of the formula is exact
+                tol = (Fraction(1, 10 ** 9) * (amax(ex[0:3]) + 1) if shallow else 256 * EPS * cond * cond * (amax(p0) + amax(p1) + amax(x))) + Fraction(1, 10 ** 300)
                 if g.near3(rr, ex[0:3], tol, 'project_onto_intersection differs from the exact point', 'impl-vs-model'):
                     g.near(dot(n0, sub(rr, p0)), Fraction(0), norm(n0) * tol * 3, 'result is not on the first plane')
                     g.near(dot(n1, sub(rr, p1)), Fraction(0), norm(n1) * tol * 3, 'result is not on the second plane')
@@ -217,10 +219,13 @@ def run(chk):
             axb = cross(ap, bp)
             K = dot(ap, ap) * dot(bp, bp) / dot(axb, axb)
             S = amax(a_) + amax(b_) + amax(c_)
-            if K > 10 ** 5 or min(norm(ap), norm(bp)) * 10 ** 4 < S:
+            sliver = r.family.endswith('sliver')
+            if not sliver and (K > 10 ** 5 or min(norm(ap), norm(bp)) * 10 ** 4 < S):
                 ok_cond = False
             else:
-                tol = 1024 * EPS * K * fsqrt(K) * S + Fraction(1, 10 ** 300)
+                # sliver family: dyadic coordinates with few bits, the formula's intermediates are exact -> the result is good to a few
+                # ulp of the circumradius however thin the triangle is
+                tol = (Fraction(1, 10 ** 9) * (fsqrt(ex[3]) + S) if sliver else 1024 * EPS * K * fsqrt(K) * S) + Fraction(1, 10 ** 300)
                 c, rad = res[0:3], res[3]
                 if g.near3(c, ex[0:3], tol, 'from_three_points centre differs from the exact circumcentre', 'impl-vs-model') and g.near(rad, fsqrt(ex[3]), tol * 2, 'from_three_points radius', 'impl-vs-model'):
                     for p, nm in ((a_, 'a'), (b_, 'b'), (c_, 'c')):
